@@ -30,8 +30,11 @@ class NumpyScalar:
         return np.frombuffer(data, dtype=self._dtype)[0]
 
     def _to_buffer(self, buffer, offset, value, info=None):
-        data = self._dtype.type(value).tobytes()
-        buffer.update_from_buffer(offset, data)
+        data = self._dtype.type(value)
+        if np.ndim(data) != 0:
+            # a sequence would be written in full, over what follows
+            raise ValueError(f"{value!r} is not a {self.__name__} scalar")
+        buffer.update_from_buffer(offset, data.tobytes())
 
     def __call__(self, value=0):
         return self._dtype.type(value)
